@@ -159,6 +159,8 @@ def run(ck, fb, fbd):
     topology_detection(ck, fb)
     from . import readers
     buffer_rule(ck, fb)
+    bool_codec_rule(ck, fb)
+    empty_span_rule(ck, fb)
     readers.edge_dup_rule(ck, fb)
     readers.optional_chunk_rule(ck, fb)
 
@@ -710,3 +712,55 @@ def buffer_rule(ck, fb):
                 ok = bool(decls) and not inner and all(f.dominates(dp, (b, i)) for dp in decls) and len([1 for fb_, fi_, fk_, fx_, fw_ in fills if fk_ == k_]) == 1
             (ck.ok if ok else lambda r, w, t: ck.violate(r, w, t, "C06.buffer:%s:%s" % (f.pq, k_[1])))("C06.buffer", f.loc(x), "%s: %s on %s follows a reset() of that buffer in the same iteration" % (f.pq.split("::")[-1], what, str(k_[1]).split("@")[0]))
     ck.floor("buffer_fill_sites", n, 8)
+
+
+def bool_codec_rule(ck, fb):
+    """the bit-packed bool codec: encoder and decoder agree on ceil(n/8) bytes"""
+    import re
+    from .canon import Canon
+    ck.rule("C06.boolcodec", "BoolPropCodec: encode_n writes one byte per started group of 8 values (outer loop with step 8 over [begin, end)), decode_n budgets exactly ceil((end-begin)/8) bytes and reads one byte per started group: a budget of n/8+1 rejects every value count that is a multiple of 8, n/8 under-reads")
+    fs = {f.name: f for f in fb.fns.values() if f.has_cfg and f.name in ("decode_n", "encode_n") and "BoolPropCodec" in (f.cls or f.pq)}
+    if set(fs) != {"decode_n", "encode_n"}:
+        raise AnalysisBroken("anchor vanished: BoolPropCodec::encode_n/decode_n (%s)" % sorted(fs))
+    for name, f in fs.items():
+        cn = Canon(f)
+        step8 = any(cn.s(m[3]).replace(" ", "") in ("v0+=8", "v1+=8") or re.fullmatch(r"v\d+ \+= 8", cn.s(m[3])) for ms in cn.mods.values() for m in ms)
+        outer = [cn.s((f.term(h) or {}).get("cond")) for h, b, k in f.loops()]
+        ok = step8 and any(re.fullmatch(r"\(v\d+ < P3\)", c_) for c_ in outer)
+        (ck.ok if ok else lambda r_, w_, t: ck.violate(r_, w_, t, "C06.boolcodec:%s:loop" % name))("C06.boolcodec", f.where, "%s walks [begin, end) in steps of 8 (loops %s)" % (name, outer))
+    f = fs["decode_n"]
+    cn = Canon(f)
+    needs = [cn.s(x["a"][0]) for b, i, x in f.nodes(("call",)) if x.get("pn", "").endswith("Decoder::need") and x.get("a")]
+    N = r"\(P3 - P2\)"
+    if len(needs) != 1:
+        ck.violate("C06.boolcodec", f.where, "decode_n budgets its input once (found %s)" % needs, "C06.boolcodec:need:count")
+        return
+    a = needs[0]
+    if re.fullmatch(r"\(\(%s \+ 7\) / 8\)|\(\(%s \+ 7\) >> 3\)|\(\(7 \+ %s\) / 8\)" % (N, N, N), a):
+        ck.ok("C06.boolcodec", f.where, "decode_n budgets ceil(n/8) bytes: %s" % a)
+    elif re.fullmatch(r"\(\(%s / 8\) \+ 1\)|\(1 \+ \(%s / 8\)\)|\(%s / 8\)|\(%s >> 3\)" % (N, N, N, N), a):
+        ck.violate("C06.boolcodec", f.where, "decode_n budgets %s bytes, which differs from the ceil(n/8) bytes the encoder writes whenever n is a multiple of 8" % a, "C06.boolcodec:need")
+    else:
+        ck.cannot_judge("%s: BoolPropCodec::decode_n budgets %s: rule C06.boolcodec does not know this form - re-audit" % (f.where, a))
+
+
+def empty_span_rule(ck, fb):
+    """the writer emits a PROP chunk with an empty span for a persistent property of a kind without elements"""
+    from .canon import Canon
+    ck.rule("C06.emptyspan", "BinaryFileReader::read_prop_chunk never rejects an empty span: the range error (first >= n ...) is raised only when span.empty() is known to be false, because the writer stores {first = 0, count = 0} for properties of entity kinds that have no elements (n = 0)")
+    fs = [f for f in fb.fns.values() if f.has_cfg and f.name == "read_prop_chunk" and "BinaryFileReader" in (f.cls or "")]
+    if not fs:
+        raise AnalysisBroken("anchor vanished: BinaryFileReader::read_prop_chunk")
+    f = fs[0]
+    cn = Canon(f)
+    n = 0
+    for b, i, x in f.tops():
+        a = as_assign(x)
+        if not a or "state_" not in cn.s(a[0]) or "ErrorHandleRange" not in cn.s(a[1]):
+            continue
+        n += 1
+        fs_ = {(s_, p_) for s_, p_, c_ in cn.facts(b)}
+        ok = any(s_.endswith(".span.empty()") and p_ is False for s_, p_ in fs_)
+        (ck.ok if ok else lambda r_, w_, t: ck.violate(r_, w_, t, "C06.emptyspan"))("C06.emptyspan", f.loc(x), "the span range error of read_prop_chunk is raised only for a non-empty span")
+    if n == 0:
+        ck.cannot_judge("%s: read_prop_chunk has no ErrorHandleRange assignment any more: rule C06.emptyspan cannot find the span test - re-audit" % f.where)
